@@ -21,7 +21,14 @@ def main():
     if a.replay:
         with open(a.replay) as f:
             rep = json.load(f)
-        sys.exit(replay(mod, rep, a.replay))
+        if hasattr(mod, "setup"):
+            mod.setup()
+        try:
+            rc = replay(mod, rep, a.replay)
+        finally:
+            if hasattr(mod, "teardown"):
+                mod.teardown()
+        sys.exit(rc)
     ctx = Ctx(prop, a.tier, modname)
     rc = mod.run(ctx)
     sys.exit(rc)
